@@ -135,11 +135,24 @@ pub(crate) fn validate_size_impl(
     sizes: impl IntoIterator<Item = usize>,
 ) -> Result<usize, SizeError> {
     let mut elements = 1.0;
+    let mut any_zero = false;
     for size in sizes {
         if size == 0 {
-            return Ok(0);
+            any_zero = true;
+        } else {
+            elements *= size as f64;
         }
-        elements *= size as f64;
+    }
+    if any_zero {
+        // The array has no elements, but the products of some of its
+        // dimensions, like the row length, must still fit in a `usize`
+        if elements > isize::MAX as f64 {
+            return Err(SizeError {
+                elements,
+                elem_size,
+            });
+        }
+        return Ok(0);
     }
     if elements > u32::MAX as f64 {
         return Err(SizeError {
